@@ -18,10 +18,10 @@ use rosu_map::section::hit_objects::{HitObject, HitObjectKind};
 use rosu_map::section::Section;
 use rosu_map::{Beatmap, BeatmapState, DecodeBeatmap, DecodeState};
 
-pub const RULE: &str = "whole .osu files (structured generator levels 0-2 in all four modes, chronological and not; an object-centred generator with every object kind in every mode, hostile sample extras, negative/over-range custom banks and volumes, >20 equal start times, multi-segment slider paths incl. trailing typed points; bundled maps and mutations of them) decoded with the real crate and re-encoded; correspondence: extracted decode+encode model (token stream rendered with Rust's Display) vs encode_to_string, byte for byte, on slider-free files (slider files join when the curve/slider-event models are connected); oracle: version line, eight headers once and in order, every body line accepted by its section parser on an accumulating state, recognised key, not a header, not skipped, record counts preserved on re-decode; non-trivial = the decoded map has at least one hit object and one timing point; distinct = distinct texts";
+pub const RULE: &str = "whole .osu files (structured generator levels 0-2 in all four modes, chronological and not; an object-centred generator with every object kind in every mode, hostile sample extras, negative/over-range custom banks and volumes, >20 equal start times, multi-segment slider paths incl. trailing typed points; bundled maps and mutations of them) decoded with the real crate and re-encoded; correspondence: extracted decode+encode model (token stream rendered with Rust's Display) vs encode_to_string, byte for byte, on slider-free and slider files (curve and slider-event models connected; sliders with more than 60 repeats only in the oracle streams); oracle: version line, eight headers once and in order, every body line accepted by its section parser on an accumulating state, recognised key, not a header, not skipped, hit-object lines read as the same kind and start time, record counts and the fields of the six simple sections preserved on re-decode; non-trivial = the decoded map has at least one hit object and one timing point; distinct = distinct texts";
 
-/// Switch to `true` once `DrvEnc.v` is connected to the curve and slider-event
-/// models: files with sliders then become correspondence cases as well.
+/// `DrvEnc.v` is connected to the curve and slider-event models: files with
+/// sliders are correspondence cases as well (`false` = slider-free files only).
 pub const SLIDERS_IN_MODEL: bool = true;
 
 pub const HEADERS: [&str; 8] =
